@@ -307,11 +307,14 @@ def from_bytes_model(b, byteorder='big', *, signed=False):
     cache = e.persist.setdefault('from_bytes', {})
     hit = cache.get(ck)
     if hit is not None:
-        return SymInt(hit[0], hit[1], 8 * n)
+        return SymInt(hit[0], hit[1], 8 * n, None if signed or any(type(x) is int and x != 0 for x in items)
+                      else [x for x in items if type(x) is not int])
     res = _from_bytes_build(items, n, signed)
     if len(cache) > 20000:
         cache.clear()
     cache[ck] = (res.t, res.width, items)      # items kept alive so that ids stay valid
+    if not signed:
+        res.zero_parts = [x for x in items if type(x) is not int] if all(type(x) is not int or x == 0 for x in items) else None
     return res
 
 
@@ -340,7 +343,9 @@ def int_to_bytes_model(v, length=1, byteorder='big', signed=False):
         v = SymInt(zi(v), 1)
     if isinstance(v, int):
         return v.to_bytes(length, byteorder, signed=signed)
-    if signed:
+    if not signed and v.width is not None and v.width <= 8 * length:
+        pass                                   # known to fit: no overflow decisions
+    elif signed:
         lo, hi = -(256 ** length) // 2, (256 ** length) // 2
         if not mk_bool(z3.And(v.t >= lo, v.t < hi)):
             raise OverflowError('int too big to convert')
@@ -361,8 +366,25 @@ def int_to_bytes_model(v, length=1, byteorder='big', signed=False):
         ds = hit[1]
     else:
         from .core import ABSTRACT
-        ds = [e.fresh_int('d') for _ in range(length)]
+        if ABSTRACT.get('uf_digits'):
+            # digits as an uninterpreted function of the value: equal values have equal digits by congruence,
+            # the solver does not have to re-derive uniqueness of the base-256 representation
+            f = z3.Function(f'Dig{length}', z3.IntSort(), z3.IntSort(), z3.IntSort())
+            ds = [f(v.t, z3.IntVal(i)) for i in range(length)]
+        else:
+            ds = [e.fresh_int('d') for _ in range(length)]
         e.add(z3.And(*[z3.And(d >= 0, d <= 255) for d in ds]), simplified=True)
+        if v.width is not None and v.width < 8 * length and not signed:
+            # redundant lemma (helps the solver): digits above the known width are zero / bounded
+            hi = []
+            for i, d in enumerate(ds):                 # ds is big-endian: ds[0] is the most significant digit
+                pos = 8 * (length - 1 - i)
+                if pos >= v.width:
+                    hi.append(d == 0)
+                elif pos + 8 > v.width:
+                    hi.append(d < (1 << (v.width - pos)))
+            if hi:
+                e.add(z3.And(*hi), simplified=True)
         if ABSTRACT['digits'] and length >= 8:
             e.run_cache['abstracted'] = True
         else:
